@@ -2,11 +2,14 @@ package main
 
 import (
 	"encoding/json"
+	"errors"
 	"fmt"
 	"os"
+	"path/filepath"
 	"sort"
 
 	"github.com/feichai0017/NoKV/manifest"
+	"github.com/feichai0017/NoKV/vfs"
 	"verifharness/internal/corr"
 )
 
@@ -143,8 +146,9 @@ func unflatEdit(v flat) manifest.Edit {
 }
 
 type mfDesc struct {
-	Thr   int64  `json:"thr"`
-	Edits []flat `json:"edits"`
+	Kind    string   `json:"kind"` // reload | crash
+	Thr     int64    `json:"thr"`
+	Batches [][]flat `json:"batches"`
 }
 
 func key(c *corr.Ctx) []byte {
@@ -157,11 +161,14 @@ func big(c *corr.Ctx) uint64 {
 }
 
 // genEdits: all 8 edit types over small id spaces so that edits collide (delete existing files,
-// update/delete existing value logs and heads, overwrite raft pointers, delete regions).
-func genEdits(c *corr.Ctx, n int, risky bool) []flat {
+// update/delete existing value logs and heads, overwrite raft pointers, delete regions), nil
+// sub-structs, invalid value-log updates with a non-zero offset. File ids are unique per level
+// (the engine never adds a file id twice; see Properties/C15.v).
+func genEdits(c *corr.Ctx, n int) []flat {
 	var out []flat
 	type lf struct{ l, id uint64 }
 	live := map[lf]bool{}
+	used := map[lf]bool{}
 	nextID := uint64(1)
 	for i := 0; i < n; i++ {
 		switch c.Rng.Intn(9) {
@@ -169,7 +176,7 @@ func genEdits(c *corr.Ctx, n int, risky bool) []flat {
 			l := uint64(c.Rng.Intn(7))
 			id := nextID
 			nextID += uint64(1 + c.Rng.Intn(3))
-			if c.Rng.Intn(3) == 0 { // ids out of order across levels
+			if c.Rng.Intn(3) == 0 { // ids out of order
 				id = nextID + 100 - uint64(i)
 				nextID++
 			}
@@ -177,6 +184,7 @@ func genEdits(c *corr.Ctx, n int, risky bool) []flat {
 				continue
 			}
 			live[lf{l, id}] = true
+			used[lf{l, id}] = true
 			out = append(out, flat{N: []uint64{0, l, id, big(c), big(c), big(c), uint64(c.Rng.Intn(2))}, B: [][]byte{key(c), key(c)}})
 		case 2:
 			var ks []lf
@@ -194,18 +202,17 @@ func genEdits(c *corr.Ctx, n int, risky bool) []flat {
 		case 3:
 			out = append(out, flat{N: []uint64{2, small(c), big(c)}})
 		case 4:
+			if c.Rng.Intn(8) == 0 {
+				out = append(out, flat{N: []uint64{3, 0}})
+				continue
+			}
 			out = append(out, flat{N: []uint64{3, 1, uint64(c.Rng.Intn(3)), uint64(c.Rng.Intn(4)), big(c), 1}})
 		case 5:
 			out = append(out, flat{N: []uint64{4, 1, uint64(c.Rng.Intn(3)), uint64(c.Rng.Intn(4)), 0, 0}})
 		case 6:
-			valid := uint64(c.Rng.Intn(2))
-			off := big(c)
-			if valid == 0 && !risky {
-				off = 0
-			}
-			out = append(out, flat{N: []uint64{5, 1, uint64(c.Rng.Intn(3)), uint64(c.Rng.Intn(4)), off, valid}})
+			out = append(out, flat{N: []uint64{5, 1, uint64(c.Rng.Intn(3)), uint64(c.Rng.Intn(4)), big(c), uint64(c.Rng.Intn(2))}})
 		case 7:
-			if risky && c.Rng.Intn(4) == 0 {
+			if c.Rng.Intn(5) == 0 {
 				out = append(out, flat{N: []uint64{6, 0}})
 				continue
 			}
@@ -216,7 +223,7 @@ func genEdits(c *corr.Ctx, n int, risky bool) []flat {
 			out = append(out, flat{N: nn})
 		case 8:
 			id := uint64(c.Rng.Intn(4))
-			if risky && c.Rng.Intn(5) == 0 {
+			if c.Rng.Intn(6) == 0 {
 				out = append(out, flat{N: []uint64{7, 0}})
 				continue
 			}
@@ -234,7 +241,49 @@ func genEdits(c *corr.Ctx, n int, risky bool) []flat {
 	return out
 }
 
-func manifestCase(c *corr.Ctx, root string, d mfDesc) (corr.Case, error) {
+func batchesOf(c *corr.Ctx, es []flat) [][]flat {
+	var out [][]flat
+	for i := 0; i < len(es); {
+		k := 1 + c.Rng.Intn(3)
+		if i+k > len(es) {
+			k = len(es) - i
+		}
+		out = append(out, es[i:i+k])
+		i += k
+	}
+	return out
+}
+
+func batchesTerm(bs [][]flat) string {
+	it := make([]string, len(bs))
+	for i, b := range bs {
+		it[i] = flatsTerm(b)
+	}
+	return corr.List(it)
+}
+
+func toEdits(b []flat) []manifest.Edit {
+	out := make([]manifest.Edit, len(b))
+	for i, f := range b {
+		out[i] = unflatEdit(f)
+	}
+	return out
+}
+
+// reopen: Verify (ErrNotExist tolerated, as db.go does) + Open + Current.
+func reopen(dir string) ([]flat, int) {
+	if err := manifest.Verify(dir, nil); err != nil && !errors.Is(err, os.ErrNotExist) {
+		return nil, 1
+	}
+	m, err := manifest.Open(dir, nil)
+	if err != nil {
+		return nil, 2
+	}
+	defer m.Close()
+	return canon(m.Current()), 0
+}
+
+func reloadCase(c *corr.Ctx, root string, d mfDesc) (corr.Case, error) {
 	dir, err := os.MkdirTemp(root, "m")
 	if err != nil {
 		return corr.Case{}, err
@@ -245,58 +294,200 @@ func manifestCase(c *corr.Ctx, root string, d mfDesc) (corr.Case, error) {
 		return corr.Case{}, err
 	}
 	m.SetRewriteThreshold(d.Thr)
-	for i := 0; i < len(d.Edits); {
-		k := 1 + c.Rng.Intn(3)
-		if i+k > len(d.Edits) {
-			k = len(d.Edits) - i
-		}
-		var batch []manifest.Edit
-		for _, f := range d.Edits[i : i+k] {
-			batch = append(batch, unflatEdit(f))
-		}
-		if err := m.LogEdits(batch...); err != nil {
+	for _, b := range d.Batches {
+		if err := m.LogEdits(toEdits(b)...); err != nil {
 			return corr.Case{}, err
 		}
-		i += k
 	}
 	mem := canon(m.Current())
 	if err := m.Close(); err != nil {
 		return corr.Case{}, err
 	}
-	ents, _ := os.ReadDir(dir)
-	rewritten := true
+	if _, err := os.Stat(filepath.Join(dir, "MANIFEST-000001")); err != nil {
+		c.Count("reload_rewritten")
+	} else {
+		c.Count("reload_no_rewrite")
+	}
+	disk, errc := reopen(dir)
+	term := fmt.Sprintf("Cm %d %s %s %s %d", d.Thr, batchesTerm(d.Batches), flatsTerm(mem), flatsTerm(disk), errc)
+	return corr.Case{Coq: term, Nontrivial: len(d.Batches) > 1, Desc: d}, nil
+}
+
+// ---- recording file system: a snapshot of the directory at every operation ----
+
+type dirSnap map[string][]byte
+
+type recFS struct {
+	vfs.OSFS
+	dir   string
+	on    *bool
+	snaps *[]dirSnap
+}
+
+func (r recFS) snap() dirSnap {
+	s := dirSnap{}
+	ents, _ := os.ReadDir(r.dir)
 	for _, e := range ents {
-		if e.Name() == "MANIFEST-000001" {
-			rewritten = false
+		b, _ := os.ReadFile(filepath.Join(r.dir, e.Name()))
+		s[e.Name()] = b
+	}
+	return s
+}
+
+func (r recFS) record() {
+	if *r.on {
+		*r.snaps = append(*r.snaps, r.snap())
+	}
+}
+
+func (r recFS) OpenFileHandle(name string, flag int, perm os.FileMode) (vfs.File, error) {
+	f, err := r.OSFS.OpenFileHandle(name, flag, perm)
+	r.record()
+	if err != nil {
+		return nil, err
+	}
+	return &recFile{File: f, fs: r, base: filepath.Base(name)}, nil
+}
+
+func (r recFS) WriteFile(name string, data []byte, perm os.FileMode) error {
+	// torn variants: the file created empty / holding a prefix
+	if *r.on {
+		base := r.snap()
+		for _, k := range cutPoints(len(data)) {
+			s := dirSnap{}
+			for n, b := range base {
+				s[n] = b
+			}
+			s[filepath.Base(name)] = append([]byte(nil), data[:k]...)
+			*r.snaps = append(*r.snaps, s)
 		}
 	}
-	errc := 0
-	var disk []flat
-	if err := manifest.Verify(dir, nil); err != nil {
-		errc = 1
-	} else if m2, err := manifest.Open(dir, nil); err != nil {
-		errc = 2
-	} else {
-		disk = canon(m2.Current())
-		m2.Close()
+	err := r.OSFS.WriteFile(name, data, perm)
+	r.record()
+	return err
+}
+
+func (r recFS) Rename(a, b string) error { err := r.OSFS.Rename(a, b); r.record(); return err }
+func (r recFS) Remove(a string) error    { err := r.OSFS.Remove(a); r.record(); return err }
+func (r recFS) Truncate(a string, n int64) error {
+	err := r.OSFS.Truncate(a, n)
+	r.record()
+	return err
+}
+
+type recFile struct {
+	vfs.File
+	fs   recFS
+	base string
+}
+
+func cutPoints(n int) []int {
+	set := map[int]bool{}
+	for _, k := range []int{0, 1, 3, 4, 5, 9, n / 3, n / 2, n - 5, n - 4, n - 1} {
+		if k >= 0 && k < n {
+			set[k] = true
+		}
 	}
-	if rewritten {
-		c.Count("rewritten")
-	} else {
-		c.Count("no_rewrite")
+	var out []int
+	for k := range set {
+		out = append(out, k)
 	}
-	term := fmt.Sprintf("Cm %d %s %s %s %d", d.Thr, flatsTerm(d.Edits), flatsTerm(mem), flatsTerm(disk), errc)
-	return corr.Case{Coq: term, Nontrivial: len(d.Edits) > 2, Desc: d}, nil
+	sort.Ints(out)
+	return out
+}
+
+func (f *recFile) Write(p []byte) (int, error) {
+	if *f.fs.on {
+		base := f.fs.snap()
+		for _, k := range cutPoints(len(p)) {
+			s := dirSnap{}
+			for n, b := range base {
+				s[n] = b
+			}
+			s[f.base] = append(append([]byte(nil), base[f.base]...), p[:k]...)
+			*f.fs.snaps = append(*f.fs.snaps, s)
+		}
+	}
+	n, err := f.File.Write(p)
+	f.fs.record()
+	return n, err
+}
+
+func crashCase(c *corr.Ctx, root string, d mfDesc) (corr.Case, error) {
+	dir, err := os.MkdirTemp(root, "c")
+	if err != nil {
+		return corr.Case{}, err
+	}
+	defer os.RemoveAll(dir)
+	on := false
+	var snaps []dirSnap
+	fs := recFS{dir: dir, on: &on, snaps: &snaps}
+	m, err := manifest.Open(dir, fs)
+	if err != nil {
+		return corr.Case{}, err
+	}
+	m.SetRewriteThreshold(d.Thr)
+	var groups []string
+	total := 0
+	for k, b := range d.Batches {
+		snaps = snaps[:0]
+		on = true
+		err := m.LogEdits(toEdits(b)...)
+		on = false
+		if err != nil {
+			return corr.Case{}, err
+		}
+		seen := map[string]bool{}
+		var obs []string
+		for _, s := range snaps {
+			sd, err := os.MkdirTemp(root, "s")
+			if err != nil {
+				return corr.Case{}, err
+			}
+			for n, bts := range s {
+				if err := os.WriteFile(filepath.Join(sd, n), bts, 0o644); err != nil {
+					return corr.Case{}, err
+				}
+			}
+			st, errc := reopen(sd)
+			os.RemoveAll(sd)
+			t := fmt.Sprintf("(%s, %d)", flatsTerm(st), errc)
+			total++
+			if !seen[t] {
+				seen[t] = true
+				obs = append(obs, t)
+			}
+		}
+		c.CountN("crash_snapshots", len(snaps))
+		groups = append(groups, fmt.Sprintf("(%d, %s)", k, corr.List(obs)))
+	}
+	m.Close()
+	term := fmt.Sprintf("Cc %d %s %s", d.Thr, batchesTerm(d.Batches), corr.List(groups))
+	return corr.Case{Coq: term, Nontrivial: total > 0, Desc: d}, nil
 }
 
 func runManifest(c *corr.Ctx) error {
 	c.Meta("run_module", "RunManifest")
-	c.Meta("rule", "real manifest.Manager: random edit sequences (3..40 edits, batches of 1-3) over all 8 edit types with colliding ids (file add/delete incl. deletes of missing files and out-of-order ids, WAL checkpoint, value-log head/delete/update, raft pointers, region update/delete), boundary field values (0, 2^32-1, 2^63-1, 2^64-1), empty keys; rewrite thresholds {disabled, 64, 300 bytes} so that automatic rewrites happen after almost every batch / every few batches; Current() before Close compared with the model's fold of apply and with Current() of a manager reopened after Verify + Open. non-trivial = more than two edits")
+	c.Meta("rule", "real manifest.Manager. reload cases: random edit sequences (3..40 edits, LogEdits batches of 1-3) over all 8 edit types with colliding ids (file add/delete incl. deletes of missing files and out-of-order ids, WAL checkpoint, value-log head/delete/update incl. invalid updates with an offset, raft pointers, region update/delete, nil sub-structs), boundary field values (0, 2^32-1, 2^63-1, 2^64-1), empty keys; rewrite thresholds {disabled, 64, 300 bytes}; Current() before Close vs the model and vs Current() after Verify + Open. crash cases: the same run on a recording vfs.FS that snapshots the directory after every OpenFileHandle / Write / WriteFile / Rename / Remove / Truncate during LogEdits and at torn prefixes of every write; every snapshot is reopened with the real Verify + Open; each recovered state must be one of the model's crash states for that LogEdits call and the state after a prefix of the edits containing all acknowledged ones")
 	root, err := os.MkdirTemp(os.Getenv("VERIF_TMP"), "mf")
 	if err != nil {
 		return err
 	}
 	defer os.RemoveAll(root)
+	run := func(d mfDesc) error {
+		var cs corr.Case
+		var err error
+		if d.Kind == "crash" {
+			cs, err = crashCase(c, root, d)
+		} else {
+			cs, err = reloadCase(c, root, d)
+		}
+		if err != nil {
+			return err
+		}
+		c.Emit(cs)
+		return nil
+	}
 	if c.Replay != "" {
 		cs, err := c.ReplayCases()
 		if err != nil {
@@ -308,23 +499,25 @@ func runManifest(c *corr.Ctx) error {
 			if err := json.Unmarshal(b, &d); err != nil {
 				return err
 			}
-			cs, err := manifestCase(c, root, d)
-			if err != nil {
+			if err := run(d); err != nil {
 				return err
 			}
-			c.Emit(cs)
 		}
 		return nil
 	}
-	risky := os.Getenv("VERIF_C15_RISKY") == "1"
-	n := c.Scale(300, 8000)
+	n := c.Scale(250, 8000)
+	nc := c.Scale(40, 1500)
 	for i := 0; i < n; i++ {
-		d := mfDesc{Thr: corr.Pick(c.Rng, []int64{0, 64, 300, 300}), Edits: genEdits(c, 3+c.Rng.Intn(38), risky)}
-		cs, err := manifestCase(c, root, d)
-		if err != nil {
+		d := mfDesc{Kind: "reload", Thr: corr.Pick(c.Rng, []int64{0, 64, 300, 300}), Batches: batchesOf(c, genEdits(c, 3+c.Rng.Intn(38)))}
+		if err := run(d); err != nil {
 			return err
 		}
-		c.Emit(cs)
+		if i%(n/nc+1) == 0 {
+			d := mfDesc{Kind: "crash", Thr: corr.Pick(c.Rng, []int64{0, 64, 150, 150}), Batches: batchesOf(c, genEdits(c, 2+c.Rng.Intn(7)))}
+			if err := run(d); err != nil {
+				return err
+			}
+		}
 	}
 	c.Meta("exhaustive", false)
 	return nil
